@@ -287,9 +287,36 @@ def check_reactor(case, ctx):
                     (utpl and m.group(2).strip() != (utpl.format(**udict) if units is not None else '')):
                 ctx.fail('C07.reactor/value-or-unit:list', '%s: %r vs %r' % (name, g_, w_))
                 break
+    # ... and nothing else: every leaf of the document is accounted for by a supplied option
+    allowed = set()
+    for name in case['opts']:
+        sec, key = (DIM_OPTS.get(name) or PLAIN_OPTS[name])[:2]
+        allowed.add('%s/%s' % (sec, key))
+    if 'multi_T' in case['multi']:
+        allowed.update(['simulation/multi_input/temperature', 'reactor/temperature'])   # (first value doubles as the base case)
+    if 'multi_P' in case['multi']:
+        allowed.update(['simulation/multi_input/pressure', 'reactor/pressure'])
+
+    def leaves(node, path):
+        if isinstance(node, dict) and node:
+            for k_, v_ in node.items():
+                yield from leaves(v_, path + [str(k_)])
+        else:
+            yield '/'.join(path), node
+    for pth, val in leaves(doc, []):
+        if pth.startswith('phases') and case['with_phases'] != 'none':
+            continue
+        if pth in allowed or (units is not None and pth.startswith('units/')):
+            continue
+        ctx.fail('C07.reactor/entry-nobody-supplied', '%s: %r (supplied: %r)' % (pth, val, sorted(allowed)))
+        break
     if case['with_phases'] == 'list':
         ph = doc.get('phases', {})
-        if (ph.get('gas') or {}).get('name') != 'gas' or [p.get('name') for p in ph.get('surfaces', [])] != ['terrace']:
+        try:
+            ok = (ph.get('gas') or {}).get('name') == 'gas' and [p.get('name') for p in ph.get('surfaces', [])] == ['terrace']
+        except AttributeError:          # not the documented mapping-of-mappings shape at all
+            ok = False
+        if not ok:
             ctx.fail('C07.reactor/phases', repr(ph))
 
 
@@ -558,8 +585,10 @@ def check_model(case, ctx):
         if av is None or abs(av - wantA) > 1e-9 * abs(wantA):
             ctx.fail('C07.model/yaml:A:%s' % r['kind'], '%s: file %r model %r' % (eq, rc.get('A'), wantA))
             break
-        if float(rc.get('b')) != float(rx.beta):
-            ctx.fail('C07.model/yaml:b', '%s: %r vs %r' % (eq, rc.get('b'), rx.beta))
+        # documented default: 1 for a surface step, 0 for an adsorption step
+        want_b = r['beta'] if r['beta'] is not None else (0.0 if r['kind'] == 'ads' else 1.0)
+        if float(rc.get('b')) != float(want_b):
+            ctx.fail('C07.model/yaml:b', '%s: %r vs %r' % (eq, rc.get('b'), want_b))
             break
     # ---------------- phases -----------------------------------------------------------
     yp = doc.get('phases', [])
@@ -577,6 +606,18 @@ def check_model(case, ctx):
             if sv is None or su != '%s/%s^2' % (units.quantity, units.length) or abs(sv - want) > 1e-9 * want:
                 ctx.fail('C07.model/yaml:site-density', '%s: file %r model %r %s/%s^2' % (
                     ph.name, e.get('site-density'), want, units.quantity, units.length))
+                break
+            # what the interface declares: reactions / interactions / BEPs are switched on exactly when it has any
+            k_ = M['surf_ph'].index(ph)
+            has_rx = any(d['surface'] == k_ for d in case['rxns'])
+            has_it = any(d['surface'] == k_ for d in case['inter'])
+            has_bep = any(d['surface'] == k_ and d['ts'] == 'bep' for d in case['rxns'])
+            want_flags = {'reactions': 'declared-species' if has_rx else 'none',
+                          'interactions': 'declared-species' if has_it else 'none',
+                          'beps': 'all' if has_bep else 'none'}
+            got_flags = {k2: e.get(k2) for k2 in want_flags}
+            if got_flags != want_flags:
+                ctx.fail('C07.model/yaml:interface-declarations', '%s: file %r, model %r' % (ph.name, got_flags, want_flags))
                 break
     # ---------------- BEPs and interactions ---------------------------------------------
     used_beps = []
@@ -703,7 +744,8 @@ def check_model(case, ctx):
                 vals = rate
                 wantA = float(rx.get_A(T=T, P=P, include_entropy=False, units=A_units))
                 wantE = rx.get_G_act(units=units.act_energy, T=T, P=P)
-            if abs(vals[0] - wantA) > 6e-6 * abs(wantA) or float(vals[1]) != float(rx.beta) or \
+            want_b = r['beta'] if r['beta'] is not None else (0.0 if r['kind'] == 'ads' else 1.0)
+            if abs(vals[0] - wantA) > 6e-6 * abs(wantA) or float(vals[1]) != float(want_b) or \
                     abs(vals[2] - wantE) > 6e-6 * abs(wantE) + 1e-9:
                 ctx.fail('C07.model/cti:rate-parameters:%s' % r['kind'], '%s: file %r model %r %r %r' % (eq, vals, wantA, rx.beta, wantE))
                 break
